@@ -129,7 +129,8 @@ def judgeHull (cfg : Cfg) (ms : List Mat) (t : Tag) : Bool :=
   match cands.map (·.pat) |>.min? with
   | none => false
   | some p =>
-    (cands.filter (·.pat == p)).any (fun m =>
+    -- ties of equal index: the FIRST such match wins (replacement needs a strictly lower index)
+    ((cands.filter (·.pat == p)).take 1).any (fun m =>
       let a := capLoop cfg (cfg.pats[m.pat]?.getD {}) m.caps
       match a.name, a.tag with
       | some n, some g => t.range.s == min g.sb n.sb && t.range.e == max g.eb n.eb
